@@ -1519,3 +1519,42 @@ Definition g_gcsa_remove_recurring_instance {TZ : Type} {DT : Type} {EXD : Type}
   | inr e =>
     (RDone (wrs_error_fetch master_event_id e))
   end.
+
+(* calgebra/gcsa.py: Calendar.fetch *)
+Definition g_gcsa_fetch {AEV : Type} (fetch_forward : option Z -> option Z -> list AEV) (fetch_reverse : option Z -> option Z -> list AEV) (start : option Z) (end_ : option Z) (reverse : bool) : list AEV :=
+  if reverse then
+    (fetch_reverse start end_)
+  else
+    (fetch_forward start end_).
+
+(* calgebra/gcsa.py: Calendar._add_interval *)
+Definition g_gcsa_add_interval {TZ : Type} {IVLX : Type} {MD : Type} {PW : Type} {GEV : Type} {CREATED : Type} {ID : Type} {AEV : Type} {CID : Type} {CSUM : Type} {WRS : Type} (prepare_event_for_add : IVLX -> CID -> CSUM -> option TZ -> PW) (pw_is_write_result : PW -> bool) (wrs_of_pw : PW -> WRS) (build_gcsa_event : PW -> GEV) (add_event : GEV -> CREATED) (created_has_id : CREATED -> bool) (created_id : CREATED -> ID) (wrs_no_id : WRS) (build_result_event : PW -> ID -> AEV) (wrs_success : AEV -> WRS) (self_calendar_id : CID) (self_calendar_summary : CSUM) (self_calendar_timezone : option TZ) (interval_ : IVLX) (metadata : MD) : WRS :=
+  let result := (prepare_event_for_add interval_ self_calendar_id self_calendar_summary self_calendar_timezone) in
+  if (pw_is_write_result result) then
+    (wrs_of_pw result)
+  else
+    let prepared := result in
+    let gcsa_event := (build_gcsa_event prepared) in
+    let created_event := (add_event gcsa_event) in
+    if (negb (created_has_id created_event)) then
+      wrs_no_id
+    else
+      let result_event := (build_result_event prepared (created_id created_event)) in
+      (wrs_success result_event).
+
+(* calgebra/gcsa.py: Calendar._add_many *)
+Definition g_gcsa_add_many {IVLX : Type} {MD : Type} {WR : Type} {EXC : Type} (add_many_batch : list IVLX -> list WR + EXC) (wr_error : EXC -> WR) (intervals : list IVLX) (metadata : MD) : res (list WR) :=
+  let events_list := intervals in
+  if (negb (nonempty events_list)) then
+    (RDone (@nil WR))
+  else
+    match (add_many_batch events_list) with
+    | inl v_ =>
+      (RDone v_)
+    | inr e =>
+      (RDone (map (fun _ => (wr_error e)) events_list))
+    end.
+
+(* calgebra/gcsa.py: Calendar._add_many_batch *)
+Definition g_gcsa_add_many_batch_results {IVLX : Type} {RESD : Type} {WR : Type} (results_get_or_missing : RESD -> Z -> WR) (results : RESD) (events_list : list IVLX) : list WR :=
+  (map (fun i => (results_get_or_missing results i)) (zrange (Z.of_nat (length events_list)))).
